@@ -635,6 +635,70 @@ def unit_reload(ctx):
         shutil.rmtree(tmp, ignore_errors=True)
 
 
+def unit_reload_other_mesh(ctx):
+    """The JSON side-car is loaded into ANOTHER mesh object than the one that wrote it (this is what every OVF / VTK read
+    does: the file stores neither dimension names nor units, the mesh is rebuilt with the defaults):
+      * same lattice, other names / units -> the held subregions carry the LOADING mesh's names and units;
+      * a lattice on which the stored boxes are not whole cells (double cell size, shifted by half a cell) -> the load is
+        refused and the subregions the mesh held before are kept."""
+    name = ctx.choose("mesh", ["2d", "3d"])
+    layout = ctx.choose("layout", ["interior", "disjoint", "touching"])
+    target = ctx.choose("loaded-into", ["same-lattice-default-names-and-units", "same-lattice-other-names-and-units",
+                                        "lattice-with-double-cells", "lattice-shifted-by-half-a-cell"])
+    bare, boxes, subs = _hmesh(name, 1.0, layout)
+    src = df.Mesh(region=bare.region, n=bare.n, subregions=subs)
+    nd = src.region.ndim
+    pmin, pmax = np.asarray(src.region.pmin, dtype=float), np.asarray(src.region.pmax, dtype=float)
+    n = [int(k) for k in src.n]
+    inst = ctx.key()
+    tmp = tempfile.mkdtemp(dir="/dev/shm", prefix="c14_")
+    try:
+        fn = os.path.join(tmp, "f.ovf")
+        src.save_subregions(fn)
+        if target.startswith("same-lattice"):
+            dims = None if "default" in target else ["p", "q", "r"][:nd]
+            units = None if "default" in target else ["mm", "km", "h"][:nd]
+            m2 = df.Mesh(region=df.Region(p1=pmin, p2=pmax, dims=dims, units=units), n=n)
+            ctx.step(1, f"load_subregions into a mesh with dims {m2.region.dims} units {m2.region.units}")
+            raised, e = C.raises(m2.load_subregions, fn)
+            ctx.check()
+            if raised:
+                ctx.fail("load_subregions/raises-on-the-same-lattice", f"{type(e).__name__}: {str(e)[:140]}", instance=inst)
+                return
+            check_state(ctx, m2, boxes, "load_subregions-other-mesh", inst)
+            return
+        # a lattice the boxes do not fit: previous subregions survive a refused load
+        if target == "lattice-with-double-cells":
+            if any(k % 2 for k in n):
+                n2 = [max(1, k // 2) if k % 2 == 0 else k for k in n]
+                if n2 == n:
+                    raise engine.Skip()
+            else:
+                n2 = [k // 2 for k in n]
+            p1, p2 = pmin, pmax
+        else:
+            cell = (pmax - pmin) / np.array(n)
+            p1, p2, n2 = pmin + cell / 2, pmax + cell / 2, n
+        m2 = df.Mesh(region=df.Region(p1=p1, p2=p2), n=n2)
+        keep = {"kept": df.Region(p1=m2.region.pmin, p2=m2.region.pmax)}
+        m2.subregions = keep
+        before = C.mesh_snap(m2)
+        ref = Ref(m2)
+        fits = all(ref.box_of(df.Region(p1=v.pmin, p2=v.pmax))[0] is not None for v in subs.values())
+        if fits:
+            raise engine.Skip()  # by coincidence whole cells of the other lattice as well
+        ctx.step(1, f"load_subregions into {target}")
+        raised, e = C.raises(m2.load_subregions, fn)
+        ctx.check(2)
+        if not raised:
+            ctx.fail("load_subregions/accepts-boxes-that-are-not-whole-cells-of-the-mesh", f"{target}: mesh now holds "
+                     f"{ {k: (np.asarray(v.pmin).tolist(), np.asarray(v.pmax).tolist()) for k, v in m2.subregions.items()} }", instance=inst)
+        elif C.mesh_snap(m2) != before:
+            ctx.fail("load_subregions/refused-but-previous-subregions-lost", f"{target}: {list(m2.subregions)}", instance=inst)
+    finally:
+        shutil.rmtree(tmp, ignore_errors=True)
+
+
 # ---------------------------------------------------------------------------------------------
 # explicit-state search over histories
 
@@ -884,5 +948,6 @@ def units(tier):
         {"name": "selrange1d", "fn": unit_selrange1d, "bound": None},
         {"name": "selrange_int", "fn": unit_selrange_int, "bound": None},
         {"name": "reload", "fn": unit_reload, "bound": None},
+        {"name": "reload_other_mesh", "fn": unit_reload_other_mesh, "bound": None},
         {"name": "hist", "fn": unit_hist, "bound": None},
     ]
